@@ -116,7 +116,14 @@ func c07Config(r *fw.Rec, v int, l qrref.Level, mask int, reps int) {
 		hints := qrHints(v, mask, charset)
 		if gs1 {
 			hints[gozxing.EncodeHintType_GS1_FORMAT] = true
+			if rng.Intn(3) == 0 {
+				hints[gozxing.EncodeHintType_GS1_FORMAT] = "true"
+			}
 			r.Tally("gs1_symbols")
+		} else if rng.Intn(3) == 0 {
+			// said explicitly that this is NOT a GS1 symbol: the plain construction
+			hints[gozxing.EncodeHintType_GS1_FORMAT] = []interface{}{false, "false", "False"}[rng.Intn(3)]
+			r.Tally("symbols_with_gs1_format_false")
 		}
 		code, err := qrenc.Encoder_encode(text, qrLibLevel[l], hints)
 		if err != nil {
@@ -367,4 +374,5 @@ func c07(c *fw.Ctx) {
 	c.Floor("version_word_error_patterns_decoded", 34*988)
 	c.Floor("format_word_error_patterns_decoded", 32*576)
 	c.Floor("byte_mode_in_declared_non_utf8_charset", 200)
+	c.Floor("symbols_with_gs1_format_false", 500)
 }
